@@ -1,0 +1,36 @@
+//go:build verif
+// +build verif
+
+// Contracts for the deductive verifier in /verif (govc). Comment-only: no executable code.
+package registry
+
+//@ const hasSpecOf = tHasField(tElem(typeOfObj(obj)), "Spec")
+//@ const hasStatusOf = tHasField(tElem(typeOfObj(obj)), "Status")
+//@ const isStructPtr = tKind(typeOfObj(obj)) == 22 && tKind(tElem(typeOfObj(obj))) == 25
+
+//@ func HasObjectMetaSpecStatus props C20
+//@   pure
+//@   ensures [meta] hasMeta == hasMetaOf(obj)
+//@   ensures [spec] hasSpec == (isStructPtr && hasSpecOf)
+//@   ensures [status] hasStatus == (isStructPtr && hasStatusOf)
+
+//@ func (DefaultRESTStrategy).PrepareForCreate props C20
+//@   modifies gfield[obj], ggen[obj]
+//@   ensures [status_cleared] s.subStatus && isStructPtr && hasStatusOf ==> gfield[obj]["Status"] == 0
+//@   ensures [gen1] hasMetaOf(obj) ==> ggen[obj] == 1
+//@   ensures [spec_untouched] gfield[obj]["Spec"] == old(gfield[obj]["Spec"])
+
+//@ func (DefaultRESTStrategy).PrepareForUpdate props C20
+//@   requires [distinct] obj != old
+//@   modifies gfield[obj], ggen[obj]
+//@   ensures [status_kept] s.subStatus && isStructPtr && hasStatusOf ==> gfield[obj]["Status"] == old(gfield[old]["Status"])
+//@   ensures [spec_untouched] gfield[obj]["Spec"] == old(gfield[obj]["Spec"])
+//@   ensures [gen_stable] isStructPtr && hasStatusOf && hasSpecOf && hasMetaOf(obj) && hasMetaOf(old) && gfield[obj]["Spec"] == gfield[old]["Spec"] && gann[obj] == gann[old] ==> ggen[obj] == old(ggen[obj])
+//@   ensures [gen_plus_one] isStructPtr && hasStatusOf && hasSpecOf && hasMetaOf(obj) && hasMetaOf(old) && !(gfield[obj]["Spec"] == gfield[old]["Spec"] && gann[obj] == gann[old]) ==> ggen[obj] == old(ggen[old]) + 1
+
+//@ func (DefaultStatusRESTStrategy).PrepareForUpdate props C20
+//@   requires [distinct] obj != old
+//@   modifies gfield[obj], glabels[obj]
+//@   ensures [spec_kept] isStructPtr && hasStatusOf && hasSpecOf ==> gfield[obj]["Spec"] == old(gfield[old]["Spec"])
+//@   ensures [labels_kept] isStructPtr && hasStatusOf && hasMetaOf(obj) && hasMetaOf(old) ==> glabels[obj] == old(glabels[old])
+//@   ensures [status_submitted] gfield[obj]["Status"] == old(gfield[obj]["Status"])
